@@ -43,6 +43,7 @@ def run(check: Check, repo: Repo, tier: str) -> None:
     G.arg_name_match(check, repo, funcs)
     G.param_readonly(check, funcs)
     D.lazy_thunks(check, repo)
+    D.sort_permutes(check, repo)
     from rules import language_rules as L
 
     L.optional_truthiness(check, repo, ["type.definition", "type.directives", "type.schema"], str_attrs=("description", "deprecation_reason", "specified_by_url"))
